@@ -1,0 +1,11 @@
+//! Verification hooks (only compiled with `--cfg nuts_rs_verif`).
+//!
+//! A window onto crate-private items for the external verification harness in `/verif`.
+//! Everything here only re-exports or forwards to the wrapped item; nothing changes behaviour.
+
+pub use crate::stepsize::{Adam, AdamOptions, DualAverage, DualAverageOptions};
+
+/// `math::util::logaddexp`
+pub fn logaddexp(a: f64, b: f64) -> f64 {
+    crate::math::logaddexp(a, b)
+}
